@@ -16,6 +16,7 @@ import (
 	"encoding/json"
 	"fmt"
 	"os"
+	"path"
 	"path/filepath"
 	"sort"
 	"strconv"
@@ -74,6 +75,9 @@ type c07Input struct {
 	CfgSet  string     `json:"cfg_set"`         // label of a named set, or "single"
 	Cases   []c07CC    `json:"cases,omitempty"` // explicit members when the set is not a named one
 	RunMode int32      `json:"run_mode"`
+	// Shapes: an element of phase F (pairs of suites with path-shaped names),
+	// judged by c07EvaluateShapes.
+	Shapes bool `json:"shapes,omitempty"`
 }
 
 type c07CfgSet struct {
@@ -780,6 +784,207 @@ func c07Evaluate(in *c07Input, set *c07CfgSet, reps int, verbose bool) c07Result
 	return res
 }
 
+// ---------------------------------------------------------------------------
+// phase F: path-shaped names
+//
+// Suite names and test names are free text and may contain slashes
+// (docs/authoring_test_cases.md names tests "unary/success"), and a full name
+// is the slash-separated sequence suite name, open axes, test name. Two
+// DIFFERENT suites can therefore spell the same full name when no axis
+// component stands between the suite name and the test name (suite "Echo" +
+// test "v2/ping", suite "Echo/v2" + test "ping"), or when a test name climbs
+// out of its suite ("../Echo/ping"). The statement demands a unique full name
+// per permutation: such a load is either refused, or every admitted (test,
+// config case) pair has its own permutation - never fewer permutations than
+// admitted pairs, and the same answer on every expansion.
+
+func c07CleanName(s string) bool {
+	if path.Clean(s) != s {
+		return false
+	}
+	for _, part := range strings.Split(s, "/") {
+		if part == ".." || part == "." {
+			return false
+		}
+	}
+	return true
+}
+
+// c07EvaluateShapes: count / uniqueness / stability oracle that does not rely on
+// how a name with "." or ".." components is spelled in the library (the
+// documents do not say): the raw slash-joined name and its cleaned form are both
+// taken as readings of the documented scheme.
+func c07EvaluateShapes(in *c07Input, set *c07CfgSet, reps int, verbose bool) c07Result {
+	var res c07Result
+	bad := func(key, format string, a ...any) {
+		if len(res.verdicts) < 40 {
+			res.verdicts = append(res.verdicts, c07Verdict{key, fmt.Sprintf(format, a...)})
+		}
+	}
+	admitted := 0
+	perSuite := make([]int, len(in.Suites))
+	acceptable := map[string]bool{} // raw and cleaned spellings of every admitted pair
+	cleaned := map[string]int{}
+	collide, mayReject, allClean := false, false, true
+	suiteNames := map[string]bool{}
+	for i := range in.Suites {
+		s := &in.Suites[i]
+		if suiteNames[s.Name] || c07Misconfigured(s) {
+			mayReject = true
+		}
+		suiteNames[s.Name] = true
+		allClean = allClean && c07CleanName(s.Name)
+		for j := range s.Cases {
+			tc := &s.Cases[j]
+			allClean = allClean && c07CleanName(tc.Name)
+			for _, cc := range set.Mirror {
+				if !c07Exists(s, tc, cc, in.RunMode) {
+					res.selects = true
+					continue
+				}
+				admitted++
+				perSuite[i]++
+				raw := c07Name(s, tc, cc)
+				cl := path.Clean(raw)
+				acceptable[raw], acceptable[cl] = true, true
+				cleaned[cl]++
+				if cleaned[cl] > 1 {
+					collide = true
+				}
+			}
+		}
+	}
+	res.nperms = admitted
+	type obs struct {
+		failed bool
+		err    error
+		snap   string
+		n      int
+	}
+	var first obs
+	for i := 0; i < reps; i++ {
+		lib, err, panicked := c07Expand(in, set.Real, i)
+		if panicked != nil {
+			bad("panic", "newTestCaseLibrary panicked (expansion #%d): %v", i+1, panicked)
+			res.outcome = "panic"
+			return res
+		}
+		cur := obs{failed: err != nil, err: err}
+		if err == nil && lib == nil {
+			bad("nil-library-without-error", "newTestCaseLibrary returned nil, nil")
+			return res
+		}
+		if err == nil {
+			cur.snap, cur.n = c07Snapshot(lib), len(lib.testCases)
+		}
+		if verbose {
+			fmt.Printf("expansion #%d: err=%v permutations=%d (admitted pairs: %d, per suite %v; names collide: %v)\n", i+1, err, cur.n, admitted, perSuite, collide)
+		}
+		if i > 0 {
+			switch {
+			case cur.failed != first.failed:
+				bad("unstable-across-runs", "expansion #%d: error=%v, expansion #1: error=%v", i+1, err, first.err)
+			case !cur.failed && cur.snap != first.snap:
+				bad("unstable-across-runs", "expansion #%d differs from the first one: %s", i+1, c07FirstDiff(first.snap, cur.snap))
+			default:
+				continue
+			}
+			return res
+		}
+		first = cur
+		if err != nil {
+			switch {
+			case collide || mayReject:
+				res.outcome = "err:colliding-names-refused"
+			case admitted == 0:
+				res.outcome = "err:no-permutation"
+			default:
+				res.outcome = "err:unexpected"
+				bad("error-but-permutations-expected", "expansion failed with %q although %d permutations with pairwise different full names exist per the statement", err, admitted)
+				return res
+			}
+			continue
+		}
+		res.outcome = "ok:perms=" + c07Bucket(cur.n)
+		if collide {
+			res.outcome += ":collision-possible"
+		}
+		if cur.n != admitted {
+			var names []string
+			for name := range lib.testCases {
+				names = append(names, name)
+			}
+			sort.Strings(names)
+			if len(names) > 6 {
+				names = names[:6]
+			}
+			bad("name-not-unique", "%d (test case, config case) pairs are admitted (per suite: %v) but the library holds %d permutations: definitions of different suites share a full name and all but one were dropped; library names: %q",
+				admitted, perSuite, cur.n, names)
+			return res
+		}
+		grouped := 0
+		for _, list := range lib.casesByServer {
+			grouped += len(list)
+		}
+		if grouped != admitted {
+			bad("group-count", "%d permutations, but the server groups hold %d entries", admitted, grouped)
+		}
+		for name, tc := range lib.testCases {
+			if !acceptable[name] {
+				bad("name-mismatch", "permutation %q is neither the slash-joined (suite, open axes, test name) of an admitted pair nor its cleaned form", name)
+			}
+			if got := tc.GetRequest().GetTestName(); got != name {
+				bad("request-field:test_name", "library entry %q carries request.test_name %q", name, got)
+			}
+		}
+	}
+	// names without "." / ".." / doubled slashes: the documented scheme is unambiguous, all oracles apply
+	if allClean && len(res.verdicts) == 0 {
+		full := c07Evaluate(in, set, 1, verbose)
+		res.verdicts = append(res.verdicts, full.verdicts...)
+	}
+	return res
+}
+
+// c07ShapeInputs: every unordered pair of distinct suite names x every ordered
+// pair of test names of the path-shaped alphabet x directive shapes (both
+// suites pin every axis and rely on TLS: no component between suite and test
+// name; one or both leave TLS open; both fully open) x stream types (same,
+// different).
+func c07ShapeInputs() [][]c07Suite {
+	suiteNames := []string{"Echo", "Echo/v2", "Echo/v2/x", "Alpha"}
+	testNames := []string{"ping", "v2/ping", "x/ping", "v2/x/ping", "../Echo/ping", "../Echo/v2/ping"}
+	pinned := func(tls bool) c07Suite {
+		return c07Suite{Protocols: []int32{1}, Versions: []int32{2}, Codecs: []int32{1}, Compressions: []int32{1}, TLS: tls}
+	}
+	shapes := [][2]c07Suite{
+		{pinned(true), pinned(true)},
+		{pinned(true), pinned(false)},
+		{pinned(false), pinned(false)},
+		{{}, {}},
+	}
+	var out [][]c07Suite
+	for _, shape := range shapes {
+		for i := range suiteNames {
+			for j := i + 1; j < len(suiteNames); j++ {
+				for _, t1 := range testNames {
+					for _, t2 := range testNames {
+						for _, stream2 := range []int32{1, 3} {
+							a, b := shape[0], shape[1]
+							a.File, a.Name = "a.yaml", suiteNames[i]
+							b.File, b.Name = "b.yaml", suiteNames[j]
+							a.Cases = []c07TC{{Name: t1, Stream: 1}}
+							b.Cases = []c07TC{{Name: t2, Stream: stream2, Service: "custom.pkg.v1.OtherService", Method: "Other"}}
+							out = append(out, []c07Suite{a, b})
+						}
+					}
+				}
+			}
+		}
+	}
+	return out
+}
+
 func c07FirstDiff(a, b string) string {
 	la, lb := strings.Split(a, "\n"), strings.Split(b, "\n")
 	for i := 0; i < len(la) || i < len(lb); i++ {
@@ -1246,6 +1451,8 @@ type c07Plan struct {
 	prefill      []c07PrefillBlock // phase D
 	multi        []c07Suite        // phase E: multi-valued relevant_* lists
 	multiCases   [][]c07TC
+	shapes       [][]c07Suite // phase F: two suites with path-shaped names
+	shapeSets    []*c07CfgSet
 }
 
 // c07PrefillBlock: test-case sets with pre-filled runner-owned fields, the
@@ -1295,6 +1502,8 @@ func c07MakePlan(t *testing.T, thorough bool) *c07Plan {
 	plan.multi = c07MultiValueDirectives()
 	plan.multiCases = [][]c07TC{small[0], small[1]}
 	plan.twinCaseSets = [][]c07TC{small[0], small[1]}
+	plan.shapes = c07ShapeInputs()
+	plan.shapeSets = []*c07CfgSet{plan.named[0], named[3]}
 	// the two mixed sets: every directive combination, whole reduced universe and default config;
 	// thorough, one set per template on all stream types: the quick directive list, whole universe
 	prefilled := c07PrefilledCaseSets(thorough)
@@ -1329,7 +1538,7 @@ func c07Report(r *rep.Report, in *c07Input, res c07Result) {
 func TestVerifC07(t *testing.T) {
 	r := rep.New("c07-enum")
 	defer r.Write()
-	r.Rule = "odometer over suite directives (mode x relevant protocols/versions/codecs/compressions subsets x the 16 relies-on combinations) x test-case sets (1-3 tests, 5 stream types, default/explicit service+method) x config-case sets (whole reduced universe, sets parsed from shipped/typical configs, every singleton of a reduced universe) x 3 run modes, plus two-suite loads whose twin differs in name and/or mode, plus every directive combination with test-case sets that pre-fill the runner-owned request fields (9 templates: client_tls_creds, server_tls_cert, http_version/protocol/codec/compression/message_receive_limit at low, middle and high values) against the universe and the default config, plus suites listing two or three values on an axis (compressions {identity,gzip}, {gzip,identity}, {gzip,br}, {identity,zstd}, {identity,gzip,zstd} x 4 protocol x 4 version x 3 codec selections x 4 relies-on combinations) against the universe and the named sets; every element is distinct by construction; it is non-trivial when the reference iff admits at least one permutation (the others check that nothing is produced)"
+	r.Rule = "odometer over suite directives (mode x relevant protocols/versions/codecs/compressions subsets x the 16 relies-on combinations) x test-case sets (1-3 tests, 5 stream types, default/explicit service+method) x config-case sets (whole reduced universe, sets parsed from shipped/typical configs, every singleton of a reduced universe) x 3 run modes, plus two-suite loads whose twin differs in name and/or mode, plus every directive combination with test-case sets that pre-fill the runner-owned request fields (9 templates: client_tls_creds, server_tls_cert, http_version/protocol/codec/compression/message_receive_limit at low, middle and high values) against the universe and the default config, plus suites listing two or three values on an axis (compressions {identity,gzip}, {gzip,identity}, {gzip,br}, {identity,zstd}, {identity,gzip,zstd} x 4 protocol x 4 version x 3 codec selections x 4 relies-on combinations) against the universe and the named sets, plus pairs of suites with path-shaped names (suite names Echo, Echo/v2, Echo/v2/x, Alpha x test names ping, v2/ping, x/ping, v2/x/ping, ../Echo/ping, ../Echo/v2/ping; every axis pinned and relies_on_tls so that no component separates suite and test name, TLS left open in one or both, fully open; same / different stream type) against the universe and the default config, where a load is either refused or holds exactly one permutation per admitted (test, config case) pair, identically on five expansions; every element is distinct by construction; it is non-trivial when the reference iff admits at least one permutation (the others check that nothing is produced)"
 	thorough := rep.Thorough()
 	plan := c07MakePlan(t, thorough)
 
@@ -1357,7 +1566,12 @@ func TestVerifC07(t *testing.T) {
 		}
 		js, _ := json.Marshal(in)
 		fmt.Printf("replay: %s\nconfig-case set %q with %d cases\n", js, set.Label, len(set.Mirror))
-		res := c07Evaluate(&in, set, 5, true)
+		var res c07Result
+		if in.Shapes {
+			res = c07EvaluateShapes(&in, set, 5, true)
+		} else {
+			res = c07Evaluate(&in, set, 5, true)
+		}
 		fmt.Printf("outcome: %s\n", res.outcome)
 		for _, v := range res.verdicts {
 			fmt.Printf("VERDICT %s: %s\n", v.key, v.detail)
@@ -1401,6 +1615,33 @@ func TestVerifC07(t *testing.T) {
 	// Order: cheapest config-case sets first (singletons, then the two-suite
 	// loads, then the large named sets), so that a budget cut under load
 	// truncates only the tail of the most expensive phase.
+	// Phase F (first: cheap): two suites with path-shaped suite / test names.
+	startF := time.Now()
+	r.Extra["suite_pairs_phaseF"] = len(plan.shapes)
+phaseF:
+	for si := range plan.shapes {
+		k++
+		if !r.Mine(k) {
+			continue
+		}
+		if expired() {
+			break phaseF
+		}
+		r.Count("phaseF suite pairs done", 1)
+		for _, set := range plan.shapeSets {
+			for _, mode := range runModes {
+				in := c07Input{Suites: plan.shapes[si], CfgSet: set.Label, RunMode: mode, Shapes: true}
+				res := c07EvaluateShapes(&in, set, 5, false)
+				c07Report(r, &in, res)
+				r.Count("phaseF evaluations", 1)
+			}
+		}
+		if si == len(plan.shapes)/7 {
+			r.Sample(c07Input{Suites: plan.shapes[si], CfgSet: plan.shapeSets[0].Label, RunMode: runModes[2], Shapes: true})
+		}
+	}
+	r.Count("phaseF ms (this shard summed)", time.Since(startF).Milliseconds())
+
 	// Phase B: every suite against every singleton of the reduced universe.
 	startB := time.Now()
 phaseB:
